@@ -527,13 +527,16 @@ func (req *Request) Process(store StorageClient, stat *Stats) (resp *Response, e
 			resp.Status = "NOT_STORED"
 		}
 
-	case "append":
+	case "append", "prepend":
 		atomic.AddInt64(&stat.cmd_set, 1)
 		stat.bytes_read += int64(len(req.Item.Body))
 
 		key := req.Keys[0]
 		var suc bool
 		suc, err = store.Append(key, req.Item.Body)
+		// the body buffer read by Request.Read is not handed to the store: release it here
+		cmem.DBRL.SetData.SubSizeAndCount(req.Item.CArray.Cap)
+		req.Item.CArray.Free()
 		if err != nil {
 			resp.Status = "SERVER_ERROR"
 			resp.Msg = err.Error()
@@ -568,6 +571,11 @@ func (req *Request) Process(store StorageClient, stat *Stats) (resp *Response, e
 
 		resp.Status = "INCR"
 		resp.Msg = strconv.Itoa(result)
+
+	case "decr":
+		// parsed (and counted) by Request.Read like incr, but not supported by the store
+		cmem.DBRL.SetData.SubCount(1)
+		resp.Status = "ERROR"
 
 	case "delete":
 		key := req.Keys[0]
